@@ -56,6 +56,11 @@ func Register(id string, run func(r *mon.Run)) {
 		}
 		if ops := coldConcOps[id]; ops != nil {
 			n := r.N(30, 300)
+			if id == "C06" || id == "C12" || id == "C15" {
+				// the cheap checks can afford more fresh processes: a first-use window of a microsecond is hit
+				// by a few per cent of the children (seeded change C12q was caught in one run of three with 30)
+				n = r.N(150, 600)
+			}
 			if id == "C20" {
 				// race build, one process per batch already: once per run, fewer children
 				n = r.N(12, 100)
